@@ -264,6 +264,26 @@ def make_case(prop, tier, seed, i):
                 op["fault"] = {"kind": "abort", "frac": rng.random(), "wide": rng.random() < 0.4,
                                "exc": weighted(rng, [("RecursionError", 6), ("MemoryError", 3), ("KeyboardInterrupt", 1)])}
         ops.append(op)
+    # bias: a 'counter' history - the same query many times (every translation advances the process-wide name
+    # counter(s)), then a probe whose column names are related (one is another plus digits) or many: identifiers are
+    # <name><counter>, so whether two of them coincide must not depend on how far earlier translations counted
+    if rng.random() < 0.03:
+        b = rng.choice(backends)
+        pre = {"atlas": "a", "cms_aod": "c", "cms_miniaod": "m"}[b]
+        qa = _query(rng, b, name=rng.choice([pre + "_cols_pt", pre + "_cols_pt", pools.QUERIES[b][rng.randrange(len(pools.QUERIES[b]))][0]]),
+                    md_rate=0.0, foreign_rate=0.0, omit_needs=0.0)
+        k = rng.choice([9, 10, 10, 10, 11, 12, 20, 21])
+        keep = rng.random() < 0.5
+        ops = [{"op": "new", "slot": 6, "backend": b}] if keep else []
+        for _ in range(k):
+            ops.append({"op": "translate", "slot": 6 if keep else None, "backend": b, "query": copy.deepcopy(qa), "ld": False,
+                        "fault": None, "share": False})
+        qb = _query(rng, b, name=rng.choice([pre + "_cols_pt1_pt", pre + "_cols_pt1_pt", pre + "_cols12", None]),
+                    md_rate=0.0, foreign_rate=0.0, omit_needs=0.0)
+        ops.append({"op": "translate", "slot": 6 if (keep and rng.random() < 0.5) else None, "backend": b, "query": qb, "ld": False,
+                    "fault": None, "share": False})
+        cfg["focus_counter"] = k
+        return {"engine": NAME, "prop": prop, "seed": seed, "run": i, "cfg": cfg, "ops": ops}
     # bias: an 'extended metadata' history - one kept executor serves LocalDataset-style translations, most of the
     # earlier ones naming a docker image, the last one mostly not (what the earlier ones found must not reach it)
     tr = [o for o in ops if o["op"] == "translate"]
